@@ -72,6 +72,16 @@ Theorem C16_rest_suffix : forall (s : list N) (k : nat), exists consumed, s = co
 Proof. exact ref_rest_suffix. Qed.
 Print Assumptions C16_rest_suffix.
 
+(* The same in terms of the model's scanner: k calls of Next never panic; the scanner they leave
+   holds an unread input [inp sc] such that (bytes consumed so far) ++ inp sc = input, that unread
+   input is the reference's [ref_rest k s], and Rest returns exactly it and kills the scanner. *)
+Theorem C16_rest_model : forall (s : list N) (k : nat), exists sc consumed,
+  run_sc (new_scanner s) (repeat ONext k) = Some sc /\
+  s = consumed ++ inp sc /\ inp sc = ref_rest k s /\
+  forall ops, run_ops sc (ORest :: ops) = RRest (inp sc) :: map dead ops.
+Proof. exact rest_model. Qed.
+Print Assumptions C16_rest_model.
+
 (* from ANY scanner state, Rest hands back the whole unread input and kills the scanner *)
 Theorem C16_rest_any : forall (sc : scanner) (ops : list sc_op),
   run_ops sc (ORest :: ops) = RRest (inp sc) :: map dead ops.
